@@ -386,7 +386,7 @@ func c12Run(r *zsim.Run) {
 			continue
 		}
 		if o.Intn(5) == 4 {
-			if !c12Adapter(r, w, b, ctx) {
+			if !c12Adapter(r, w, a, b, ctx) {
 				return
 			}
 			continue
@@ -459,7 +459,7 @@ func c12Run(r *zsim.Run) {
 }
 
 // hand adapters for methods whose packaging of arguments differs from go-redis
-func c12Adapter(r *zsim.Run, w *Redis, b *zredis.Server, ctx context.Context) bool {
+func c12Adapter(r *zsim.Run, w *Redis, a, b *zredis.Server, ctx context.Context) bool {
 	o := r.Ops
 	cl := b.Client
 	check := func(name string, args string, wv any, werr error, rv any, rerr error) bool {
@@ -482,7 +482,7 @@ func c12Adapter(r *zsim.Run, w *Redis, b *zredis.Server, ctx context.Context) bo
 		}
 		return true
 	}
-	switch o.Intn(34) {
+	switch o.Intn(36) {
 	case 0:
 		k, v, s := c12KeyFor(o, "Set"), c12Members[o.Intn(7)], 1+o.Intn(20)
 		werr := w.SetEx(k, v, s)
@@ -694,10 +694,67 @@ func c12Adapter(r *zsim.Run, w *Redis, b *zredis.Server, ctx context.Context) bo
 		wv, werr := w.EvalSha(wsha, []string{k}, 2)
 		rv, rerr := cl.EvalSha(ctx, rsha, []string{k}, 2).Result()
 		return check("EvalSha", k, wv, werr, rv, rerr)
+	case 34, 35:
+		// the three blocking pops, on a node of their own (here: the server's own client); the list holds an element,
+		// or stays empty for the whole blocking time
+		k := c12KeyFor(o, "Lpop")
+		switch o.Intn(3) {
+		case 0:
+			wv, werr := w.BLPop(a.Client, k)
+			rv, rerr := cl.BLPop(ctx, 5*time.Second, k).Result()
+			var rs any
+			if len(rv) == 2 {
+				rs = rv[1]
+			} else {
+				rs = ""
+			}
+			return check("BLPop", k, wv, werr, rs, rerr)
+		case 1:
+			wv, ok, werr := w.BLPopEx(a.Client, k)
+			rv, rerr := cl.BLPop(ctx, 5*time.Second, k).Result()
+			rs := ""
+			if len(rv) == 2 {
+				rs = rv[1]
+			}
+			return check("BLPopEx", k, fmt.Sprint(wv, ok), werr, fmt.Sprint(rs, len(rv) == 2), rerr)
+		default:
+			d := time.Duration(1+o.Intn(3)) * time.Second
+			wv, werr := w.BLPopWithTimeout(a.Client, d, k)
+			rv, rerr := cl.BLPop(ctx, d, k).Result()
+			var rs any
+			if len(rv) == 2 {
+				rs = rv[1]
+			} else {
+				rs = ""
+			}
+			return check("BLPopWithTimeout", k, wv, werr, rs, rerr)
+		}
 	case 33:
 		// pipeline: the same commands queued on both sides
 		k1, k2 := c12KeyFor(o, "Set"), c12KeyFor(o, "Set")
 		var wres, rres []string
+		if o.Intn(3) == 0 {
+			// one of the queued commands is refused by the server (wrong number of arguments): the others still
+			// take effect and each command carries its own result
+			queue := func(p red.Pipeliner) error {
+				p.Incr(ctx, k1)
+				p.Do(ctx, "SET", k2) // wrong arity
+				p.Append(ctx, k2, "x")
+				return nil
+			}
+			werr := w.Pipelined(queue)
+			rc, rerr := cl.Pipelined(ctx, queue)
+			for _, c := range rc {
+				rres = append(rres, fmt.Sprint(c.Err()))
+			}
+			v1, _ := w.Get(k1)
+			v2, _ := w.Get(k2)
+			r1, _ := cl.Get(ctx, k1).Result()
+			r2, _ := cl.Get(ctx, k2).Result()
+			wres = append(append([]string{}, rres...), v1, v2)
+			rres = append(rres, r1, r2)
+			return check("Pipelined(with a refused command)", fmt.Sprint(k1, k2), wres, werr, rres, rerr)
+		}
 		werr := w.Pipelined(func(p Pipeliner) error {
 			a := p.Incr(ctx, k1)
 			b := p.Get(ctx, k2)
